@@ -1,9 +1,10 @@
 /-
 C09 — Every strategy terminates within a bounded number of tests.
-(minimize here; the other removal strategies and the rewriting skeleton are added below as
-their models are completed — see DESIGN.md §4 C09 for what is partial.)
+(minimize, minimize-around and minimize-balanced are theorems; collapse-brace and the rewriting
+strategies: see DESIGN.md §4 C09 for what is partial.)
 -/
 import LithiumProofs.MinimizeLog
+import LithiumProofs.PairsBound
 
 namespace Strat
 open Testcase
@@ -61,6 +62,49 @@ example :
     let t : Testcase := { before := [], parts := [[1], [2], [3]], reducible := [true, true, true], after := [] }
     t.WF ∧ (minimize {} (fun _ _ => true) (fun _ => 0) t).nTests = 2 ∧
       (minimize {} (fun _ _ => true) (fun _ => 0) t).best.parts = [] := by
+  decide
+
+/-- The shared statement for the two pair strategies. -/
+theorem pairs_bound (cfg : Cfg) (clk : Clock) (t : Testcase) (h : t.WF) (hmax : 1 ≤ cfg.max)
+    (pass : Nat → It → It × Bool)
+    (hpass : ∀ cs it, it.best.WF → 1 ≤ cs → PassOK it (pass cs it)) :
+    let r := pairsOuter cfg clk (stopAt cfg clk) pass (max cfg.min 1) (pairsFuel t)
+      (min cfg.max (Util.lp2 t.len)) { best := t }
+    r.outOfFuel = false ∧ r.internalError = false ∧
+    r.nTests + 1 ≤ (t.len + 1) * (t.len + clog2 t.len + 2) + 1 := by
+  obtain ⟨hcs, hl1, hl2⟩ := log2_start_le' cfg.max t.len hmax
+  obtain ⟨b1, b2, b3⟩ := pairsOuter_bound cfg clk (stopAt cfg clk) pass (max cfg.min 1) t.len (by omega) hpass
+    (pairsFuel t) (min cfg.max (Util.lp2 t.len)) { best := t } h hcs (Nat.le_refl _) rfl rfl
+    (by unfold pairsFuel; simp only; omega)
+  refine ⟨b1, b2, ?_⟩
+  simp only at b3
+  have hA : (t.len + Nat.log2 (min cfg.max (Util.lp2 t.len)) + 1) * t.len
+      ≤ (t.len + clog2 t.len + 2) * (t.len + 1) :=
+    Nat.mul_le_mul (by omega) (by omega)
+  rw [Nat.mul_comm (t.len + 1)]
+  omega
+
+/-- minimize-around and minimize-balanced (without the experimental move), against EVERY
+interestingness test, for every well-formed testcase with `n` reducible atoms, every `--min`,
+every `--max ≥ 1`, every repeat mode, with or without a time limit and under any clock: the
+strategy terminates by itself (neither the outer loop nor a pass exhausts the model's fuel),
+never fails the `assert` of the balanced pass nor raises another internal error, and runs at most
+`(n+1)*(n+ceil(log2 n)+2)` tests — `+1` with the initial check of the original. -/
+theorem C09_bound_pairs (cfg : Cfg) (o : Oracle) (clk : Clock) (t : Testcase) (h : t.WF)
+    (hmax : 1 ≤ cfg.max) :
+    ((around cfg o clk t).outOfFuel = false ∧ (around cfg o clk t).internalError = false ∧
+      (around cfg o clk t).nTests + 1 ≤ (t.len + 1) * (t.len + clog2 t.len + 2) + 1) ∧
+    ((balanced cfg o clk t).outOfFuel = false ∧ (balanced cfg o clk t).internalError = false ∧
+      (balanced cfg o clk t).nTests + 1 ≤ (t.len + 1) * (t.len + clog2 t.len + 2) + 1) :=
+  ⟨pairs_bound cfg clk t h hmax _ (fun cs it hw hcs => aroundPass_ok o clk _ cs it hw hcs),
+   pairs_bound cfg clk t h hmax _ (fun cs it hw hcs => balPass_ok o clk _ cs it hw hcs)⟩
+
+/-- non-vacuity: `{`,`a`,`}`,`b` always-yes: balanced removes everything in 3 tests, around ends
+after 1 -/
+example :
+    let t : Testcase := { before := [], parts := [[0x7B], [0x61], [0x7D], [0x62]], reducible := [true, true, true, true], after := [] }
+    t.WF ∧ (balanced {} (fun _ _ => true) (fun _ => 0) t).nTests = 2 ∧
+      (around {} (fun _ _ => true) (fun _ => 0) t).nTests = 1 := by
   decide
 
 end Strat
